@@ -363,4 +363,4 @@ def replay(ctx, path):
         print('%s\n real : %s\n model: %s' % (line, real, mo))
         return 0 if agree else 1
     print(json.dumps(d, indent=1, default=repr)[:3000])
-    return 1
+    return None      # no dedicated replay for this kind of case: check.py re-runs the check with the recorded seed
